@@ -370,9 +370,19 @@ func genAlignMatrix(r *rand.Rand, sp matSpec) align.SubstitutionMatrix {
 		}
 		return v
 	}
+	// partial symmetries: symmetric substitutions with deletion and insertion scores that differ, or the reverse
+	symSub, symGap := sp.sym, sp.sym
+	if !sp.sym {
+		switch r.IntN(6) {
+		case 0:
+			symSub = true
+		case 1:
+			symGap = true
+		}
+	}
 	for _, x := range sp.alpha {
 		for _, y := range sp.alpha {
-			if sp.sym && y < x {
+			if symSub && y < x {
 				m[[2]byte{x, y}] = m[[2]byte{y, x}]
 				continue
 			}
@@ -393,7 +403,7 @@ func genAlignMatrix(r *rand.Rand, sp matSpec) align.SubstitutionMatrix {
 		if sp.gapSign < 0 {
 			g1, g2 = -math.Abs(g1), -math.Abs(g2)
 		}
-		if sp.sym {
+		if symGap {
 			g2 = g1
 		}
 		m[[2]byte{x, gapB}] = g1
